@@ -121,7 +121,8 @@ def put(g, frag, c):
     # directives whose own node gets its line from docutils' bookkeeping (container, topic, compound) as well as the admonitions, which set it themselves
     name = "note" if not style.startswith("dash") else "tip"
     if style == "none" and (len(frag.lines) + nblank + extra) % 3 == 0:
-        name = ["container", "topic", "compound"][(len(frag.lines) + tailblank) % 3]
+        # ... and the three quote directives, whose body goes through the mock of docutils' block-quote parsing instead of nested_parse
+        name = ["container", "topic", "compound", "epigraph", "pull-quote", "highlights"][(len(frag.lines) * 2 + tailblank + extra) % 6]
     return g.mk_directive(frag, name, colon=(k == "colon"), style=style, nblank=nblank, tailblank=tailblank, extra=extra, ch="`")
 
 
@@ -153,7 +154,7 @@ def ancestors(node):
     out = []
     p = node.parent
     while p is not None and not isinstance(p, nodes.document):
-        if isinstance(p, nodes.Admonition) or (isinstance(p, nodes.container) and "dirc" in p.get("classes", [])) or isinstance(p, (nodes.topic, nodes.compound)):
+        if isinstance(p, nodes.Admonition) or (isinstance(p, nodes.container) and "dirc" in p.get("classes", [])) or isinstance(p, (nodes.topic, nodes.compound)) or (isinstance(p, nodes.block_quote) and {"epigraph", "pull-quote", "highlights"} & set(p.get("classes", []))):
             out.append(("admonition", p))  # the node a directive wraps its body in
         elif p.tagname in CONTAINER_TAGS:
             out.append((p.tagname, p))
